@@ -1657,7 +1657,8 @@ def inverse_consistency_loss(
             raise ValueError(
                 f"inverse_consistency_loss() 'mask' batch size must be 1 or {error.shape[0]}"
             )
-        error[move_dim(mask == 0, 1, -1).expand_as(error)] = 0
+        mask = move_dim(mask != 0, 1, -1).expand_as(error)
+        error[~mask] = 0
     # Discard error at grid boundary
     if margin > 0:
         if isinstance(margin, float):
@@ -1670,6 +1671,8 @@ def inverse_consistency_loss(
             m = [max(0, int(margin))] * grid.ndim
         subgrid = tuple(reversed([slice(i, n - i) for i, n in zip(m, grid.size())]))
         error = error[(slice(0, error.shape[0]),) + subgrid + (slice(0, grid.ndim),)]
+        if mask is not None:
+            mask = mask[(slice(0, mask.shape[0]),) + subgrid + (slice(0, grid.ndim),)]
     # Scale differences by respective error units
     if units in ("voxel", "world"):
         error = denormalize_flow(
@@ -1683,9 +1686,10 @@ def inverse_consistency_loss(
     if reduction != "none":
         count = error.numel()
         error = error.sum()
-        if reduction == "mean" and mask is not None:
-            count = (mask != 0).sum()
-        error /= count
+        if reduction == "mean":
+            if mask is not None:
+                count = mask[..., 0].sum()
+            error /= count
     return error
 
 
